@@ -168,8 +168,32 @@ def run_shard(rec, tier, seed, shard, nshards):
         for li in range(n_lin):
             control = str(rng.choice(["", "DMSO"]))
             kw = gen.realistic_screen_kwargs(rng, n_samples=(2, 5), n_rows=(8, 40), n_plates=(2, 7), observed="all", singletons=float(rng.uniform(0.1, 0.3)), control=control, unicode_names=bool(rng.random() < 0.3), tiny_doses=bool(rng.random() < 0.2))
+            u = rng.random()
+            if u < 0.06:
+                # degenerate but legal: a vehicle-only run (every well holds the control) ...
+                if rng.random() < 0.5:
+                    kw["treatment_doses"] = np.zeros_like(kw["treatment_doses"])
+                else:
+                    kw["treatment_names"] = np.full(kw["treatment_names"].shape, control).astype(str)
+                rec.count("lineages_all_control")
+            elif u < 0.12:
+                # ... or single agents only (the control in every second position)
+                names = kw["treatment_names"].astype(object)
+                names[:, 1] = control
+                kw["treatment_names"] = names.astype(str)
+                kw["treatment_doses"] = kw["treatment_doses"].copy()
+                kw["treatment_doses"][:, 1] = 0.0
+                rec.count("lineages_single_agents_only")
+            elif u < 0.16:
+                # ... or one sample only
+                kw["sample_names"] = np.full(kw["sample_names"].shape, str(kw["sample_names"][0]))
+                rec.count("lineages_one_sample")
             try:
                 full = Screen(**kw)
+            except Exception as e:
+                rec.did_not_return("construct", e)
+                continue
+            try:
                 root = R.mask_screen(full)
                 if rng.random() < 0.4:
                     root = R.PlatePermutationPlateGenerator().generate_plates(root, rng)
@@ -182,7 +206,11 @@ def run_shard(rec, tier, seed, shard, nshards):
                     rec.count("lineages_extreme_fraction")
                 train, test = R.create_plate_balanced_holdout_set_among_masked_plates(root, frac, rng)
             except Exception as e:
+                # the screen itself was accepted: its preparation (mask, permutation, first reveal, hold-out split) has
+                # nothing to refuse
                 rec.did_not_return("prepare", e)
+                rec.count("oracle_evals")
+                rec.violation("C03/op/raises", "preparing the simulation of an accepted screen (mask / permute / reveal / hold-out split) raised %r" % (e,), {"names": kw["treatment_names"].tolist()[:6], "doses": kw["treatment_doses"].tolist()[:6], "samples": kw["sample_names"].tolist()[:6]})
                 continue
             smap, tmap = root_maps(root)
             space0 = ExperimentSpace.from_screen(root)
